@@ -21,12 +21,11 @@ variable {V L : Type} [DecidableEq V] [DecidableEq L]
 
 /-- On a coherent automaton the label view (`edges(with_labels=True)`), the outgoing view (all
 `edges_out`) and the incoming view (all `edges_in`) list the same labelled edges, none of them
-lists an edge twice, the label and outgoing views have the same vertex set and the incoming view
-mentions no other vertex. -/
+lists an edge twice, and the three views have the same vertex set. -/
 theorem coherent_views {s : FSA V L} (hs : s.Coherent) :
     (∀ e, e ∈ s.edgesG ↔ e ∈ s.edgesO) ∧ (∀ e, e ∈ s.edgesG ↔ e ∈ s.edgesI) ∧
     s.edgesG.Nodup ∧ s.edgesO.Nodup ∧ s.edgesI.Nodup ∧
-    (∀ v, v ∈ s.graph.keys ↔ v ∈ s.vertices) ∧ (∀ v, v ∈ s.inn.keys → v ∈ s.vertices) ∧
+    (∀ v, v ∈ s.graph.keys ↔ v ∈ s.vertices) ∧ (∀ v, v ∈ s.inn.keys ↔ v ∈ s.vertices) ∧
     s.vertices.Nodup ∧
     (∀ v l w, (v, l, w) ∈ s.edgesG → v ∈ s.vertices ∧ w ∈ s.vertices) := by
   refine ⟨?_, ?_, nodup_edgesG hs, nodup_edgesO hs, nodup_edgesI hs, hs.verts, hs.innVerts,
@@ -115,8 +114,8 @@ theorem applyOp_refines {s : FSA V L} (hs : s.WF) (op : Op V L) (hp : s.abs.Pre 
     exact ⟨s', e, w, st, a⟩
   | copy => exact ⟨s, rfl, hs, rfl, rfl⟩
   | hasEdge t h =>
-    obtain ⟨l, hl⟩ := hp
-    exact ⟨s, by simp [FSA.applyOp, hasEdge_of_edge hs hl, Except.map], hs, rfl, rfl⟩
+    obtain ⟨b, e, -⟩ := hasEdge_spec hs hp h
+    exact ⟨s, by simp [FSA.applyOp, e, Except.map], hs, rfl, rfl⟩
 
 /-- **Coherence over any history.**  Starting from a well-formed automaton, any sequence of
 operations each meeting its precondition in the state it is applied to runs without raising, ends
@@ -149,33 +148,32 @@ theorem reachable_coherent {s : FSA V L} (hs : s.WF) (ops : List (Op V L)) (hp :
   · intro v l x; rw [mem_edges_iff_abs w.1, a]
   · intro v; rw [← a]; rfl
 
-/-! ## the read accessors are not read-only -/
+/-! ## the read accessors are read-only -/
 
-/-- `has_edge` / `edge_labels` / `edge_label` asked about an existing edge change nothing … -/
-theorem query_edge_noop {s : FSA V L} (hs : s.WF) {t h : V} {l : L} (hst : s.step t l = some h) :
-    s.hasEdge t h = .ok (s, true) ∧ ∃ ls, s.edgeLabels t h = .ok (s, ls) ∧ l ∈ ls := by
-  obtain ⟨ls, hls, hl⟩ := (hs.1.label t l h).1 hst
-  exact ⟨hasEdge_of_edge hs hst, ls, edgeLabels_of_entry hls, hl⟩
+/-- `has_edge` / `edge_labels` / `edge_label` (as repaired) on a vertex `t` and any `h`: they do not
+raise, they answer from the outgoing view exactly what the label view says — `edge_labels` lists
+each label of an edge `t → h` once, `has_edge` is true iff there is one — and they cannot change
+the automaton (in the model they return no automaton; on the pinned tree they inserted an empty
+entry for a non-adjacent pair, after which `recurrent` kept dead ends: D13). -/
+theorem query_readonly {s : FSA V L} (hs : s.WF) {t : V} (ht : t ∈ s.vertices) (h : V) :
+    (∃ ls, s.edgeLabels t h = .ok ls ∧ ls.Nodup ∧ ∀ l, l ∈ ls ↔ s.step t l = some h) ∧
+    (∃ b, s.hasEdge t h = .ok b ∧ (b = true ↔ ∃ l, s.step t l = some h)) :=
+  ⟨edgeLabels_spec hs.1 ht h, hasEdge_spec hs ht h⟩
 
-/-- … but asked about two vertices that are not joined by an edge they insert an empty entry into
-the outgoing view (`defaultdict`): the label and incoming views and every entry that lists a label
-are untouched — so the three views still describe the same edges — but `NoEmpty` is lost, and
-`recurrent`, which counts entries, may then keep a vertex without outgoing edges (example below).
-Queries are outside the operation list of C09; this is recorded as an observation (D13). -/
-theorem query_nonEdge_breaks_noEmpty {s : FSA V L} (hs : s.WF) {t h : V} (ht : t ∈ s.vertices)
-    (hno : ∀ l, s.step t l ≠ some h) :
-    ∃ s', s.edgeLabels t h = .ok (s', []) ∧ s'.graph = s.graph ∧ s'.inn = s.inn ∧
-      (∀ a b, s'.og a b = if a = t ∧ b = h then some [] else s.og a b) ∧ ¬ s'.NoEmpty :=
-  edgeLabels_of_nonEdge hs ht hno
+/-- `add_edges` (as repaired) refuses an edge that contradicts an existing `(tail, label)`:
+`FSAException`, whatever `ignore_redundant` is -/
+theorem addLabel_conflict_refused {s : FSA V L} {t h w : V} {l : L} (ir : Bool)
+    (hst : s.step t l = some w) (hne : w ≠ h) : addLabel ir t h s l = .error .fsaException :=
+  addLabel_conflict ir hst hne
 
 section QueryExample
-/-- `FSA({0: {'a': 0, 'b': 1}}, [0])`: vertex 1 is a dead end -/
+/-- `FSA({0: {'a': 0, 'b': 1}}, [0])`: vertex 1 is a dead end, before and after asking `has_edge(1, 0)` -/
 def exQ : FSA Nat String := fromGraphDict [(0, [("a", 0), ("b", 1)])] [0]
 
-/-- `recurrent()` prunes vertex 1; after the query `has_edge(1, 0)` it no longer does -/
 example : (exQ.recurrent.toOption.map fun s => s.vertices) = some [0] ∧
-    (((exQ.hasEdge 1 0).toOption.bind fun r => r.1.recurrent.toOption).map fun s => s.vertices) = some [0, 1] := by
-  constructor <;> rfl
+    (exQ.hasEdge 1 0).toOption = some false ∧ (exQ.edgeLabels 0 1).toOption = some ["b"] ∧
+    (addLabel true 0 0 exQ "b").toOption = none := by
+  refine ⟨by rfl, by rfl, by rfl, by rfl⟩
 end QueryExample
 
 /-! ## the plain set model in closed form -/
